@@ -366,6 +366,17 @@ def extern_inputs(C):
         'strings.Cut': [(s, sep) for s in C.S for sep in (':', '@', 'ab', '\n', '.')],
         'strings.TrimSuffix': [(s, x) for s in C.S for x in ('.user', '.admin', '', 'a', '\n')],
         'strings.HasPrefix': [(s, x) for s in C.S for x in ('.', '', 'a', '/b')],
+        'strings.HasSuffix': [(s, x) for s in C.S for x in ('.user', '', 'a', '\n')],
+        'strings.TrimPrefix': [(s, x) for s in C.S for x in ('.', '', 'a', '/b', 'a:')],
+        'strings.Contains': [(s, x) for s in C.S for x in (':', '', 'a', '..', '\n')],
+        'strings.Index': [(s, x) for s in C.S for x in (':', '', 'a', '..', '\n')],
+        'strings.IndexByte': [(s, c) for s in C.S for c in (58, 0, 97, 10, 255)],
+        'strings.Compare': [(a, b) for a in C.small_S for b in C.small_S],
+        'bytes.Equal': [(x, y) for x in C.raws + ['ab', 'abc'] for y in C.raws + ['ab', 'abd']],
+        'strconv.Itoa': [(i,) for i in C.I if -2**63 <= i < 2**63],
+        'strconv.FormatInt': [(i, 10) for i in C.I if -2**63 <= i < 2**63],
+        'strconv.FormatUint': [(i, 10) for i in C.I if 0 <= i < 2**64],
+        'strconv.FormatBool': [(True,), (False,)],
         'strconv.ParseInt': [(s, 10, 64) for s in C.S] + [(str(i), 10, 64) for i in C.I],
         'strconv.ParseUint': [(s, 10, b) for s in C.S for b in (0, 64)] + [(str(i), 10, 64) for i in C.I],
         '(*regexp.Regexp).MatchString': [(('global', 'store.userNameRe'), s) for s in C.S],
